@@ -5,6 +5,7 @@ package main
 
 import (
 	"fmt"
+	"github.com/openconfig/gribigo/rib"
 	"math/rand/v2"
 	"strings"
 
@@ -526,6 +527,24 @@ func RunSrvHistory(name string, cfg *SrvGenCfg, evs []SEv) (*Trace, error) {
 					}
 				}
 				t.Add("%s", line)
+				// rebuilding a RIB from a complete Get(all, ALL) reproduces the source RIB
+				if all && e.GetFail < 0 && e.Get.GetAft() == spb.AFTType_ALL && err == nil {
+					back, berr := rib.FromGetResponses(cfg.Srv.Default, resps)
+					if berr != nil {
+						t.Add("srv.rebuild 0 %s", S(berr.Error()))
+					} else {
+						lb, _, e1 := entsLine(back)
+						ls, _, e2 := entsLine(h.S.VerifRIB())
+						switch {
+						case e1 != nil || e2 != nil:
+							t.Add("srv.rebuild 0 %s", S(fmt.Sprint(e1, e2)))
+						case lb != ls:
+							t.Add("srv.rebuild 0 %s", S("contents differ"))
+						default:
+							t.Add("srv.rebuild 1 %s", S(""))
+						}
+					}
+				}
 			}
 		}()
 		if crashed != "" {
